@@ -96,8 +96,9 @@ def remote_open(c: dict, o: dict | None = None) -> bytes:
     )
 
 
-async def play(lab: L.Lab, case: dict, port: int, bind_port: int | None) -> dict:
+async def play(lab: L.Lab, case: dict, port: int, bind_port: int | None, ports: list | None = None) -> dict:
     c = case['config']
+    ports = ports or [port]
     cur: L.RemoteSession | None = None
     notes: list = []
     step_times: list = []
@@ -107,7 +108,7 @@ async def play(lab: L.Lab, case: dict, port: int, bind_port: int | None) -> dict
         step_times.append(round(lab.clock.now, 4))
         lab.event('step', index=i, op=op)
         if op == 'accept':
-            cur = await lab.accept(port, args[0] if args else 30.0)
+            cur = await lab.accept(ports[args[1]] if len(args) > 1 else port, args[0] if args else 30.0)
             if cur is None:
                 notes.append((i, 'no-connection'))
                 break
@@ -203,7 +204,7 @@ async def play(lab: L.Lab, case: dict, port: int, bind_port: int | None) -> dict
         elif op == 'reload':
             if args:
                 with open(lab.config_path, 'w') as f:
-                    f.write(args[0].replace('@PORT@', str(port)))
+                    f.write(subst_ports(args[0], ports))
             from exabgp.reactor.interrupt import Signal
 
             lab.reactor.signal.received = Signal.RELOAD
@@ -333,18 +334,38 @@ def _log_evaluated() -> int:
     return getattr(log, 'evaluated', {'n': 0})['n']
 
 
+def subst_ports(text: str, ports: list) -> str:
+    for i, p_ in enumerate(ports):
+        text = text.replace('@PORT%s@' % ('' if i == 0 else i + 1), str(p_))
+    return text
+
+
 def _child(case: dict):
     srv = L.Lab.reserve_listener(case.get('rcvbuf'))
     port = srv.getsockname()[1]
+    extra = []
+    for _ in range(case.get('extra_listeners', 0)):
+        # listeners for further neighbors (their peer addresses are other loopback addresses: bound to any)
+        import socket as _socket
+
+        s2 = _socket.socket(_socket.AF_INET, _socket.SOCK_STREAM)
+        s2.setsockopt(_socket.SOL_SOCKET, _socket.SO_REUSEADDR, 1)
+        s2.bind(('0.0.0.0', 0))
+        s2.listen(16)
+        s2.setblocking(False)
+        extra.append(s2)
+    ports = [port] + [x.getsockname()[1] for x in extra]
     c = case['config']
     bind_port = L.Lab.free_port() if c.get('listen') else None
     env = dict(case.get('env', {}))
-    text = case.get('config_text') or config_text(c, port)
+    text = subst_ports(case['config_text'], ports) if case.get('config_text') else config_text(c, port)
     lab = L.Lab(text, quantum=case.get('quantum', 0.0002), env=env, bind_port=bind_port, loud=bool(case.get('loud')))
     lab.listen(port, case.get('policy', 'accept'), case.get('rcvbuf'), srv=srv)
+    for x in extra:
+        lab.listen(x.getsockname()[1], 'accept', None, srv=x)
 
     async def scenario(lab):
-        return await play(lab, case, port, bind_port)
+        return await play(lab, case, port, bind_port, ports)
 
     rec = lab.run(scenario, vtimeout=case.get('vtimeout', 400.0), wall_timeout=case.get('wall', 60.0))
     rec['config_text'] = text
